@@ -324,6 +324,18 @@ Wr(t, ins, me) ==
   /\ SetMe(t, me) /\ NoRet /\ Adv(t) /\ UnchMem
   /\ UNCHANGED <<scv, ob, sub, st, ash>>
 
+\* the closure passed to with / with_mut panics (k = "panic"): the access itself is checked first
+FailInside(t, ins, me, racy) ==
+  IF racy THEN Race /\ UNCHANGED <<pc, regs, tv, scv, ob, sub, st>> /\ UnchMem /\ UnchRace
+  ELSE /\ end' = "panic"
+       /\ UNCHANGED <<pc, regs, tv, scv, ob, sub, st>> /\ UnchMem /\ UnchRace
+RdPanic(t, ins, me) == FailInside(t, ins, me, ~Covered(cells[ins.o].w, me.cur, t))
+WrPanic(t, ins, me) == FailInside(t, ins, me, ~Covered(cells[ins.o].w, me.cur, t) \/ ~Covered(cells[ins.o].r, me.cur, t))
+WithMutPanic(t, ins, me) ==
+  LET a == ash[ins.o] IN
+  FailInside(t, ins, me, ~Covered(a.mut, me.cur, t) \/ ~Covered(a.uld, me.cur, t)
+                         \/ ~Covered(a.ld, me.cur, t) \/ ~Covered(a.sto, me.cur, t))
+
 \* a read of the cell from inside its own write section (or the reverse): a usage error loom detects
 \* with an assertion; the model must fail with it (and not abort the process)
 NestedCell(t, ins, me) ==
@@ -774,10 +786,10 @@ Do(t, ins, me) ==
     [] ins.op = "cas"      -> Cas(t, ins, me)
     [] ins.op = "await"    -> Await(t, ins, me)
     [] ins.op = "fence"    -> Fence(t, ins, me)
-    [] ins.op = "wmut"     -> WithMut(t, ins, me)
+    [] ins.op = "wmut"     -> IF ins.k = "panic" THEN WithMutPanic(t, ins, me) ELSE WithMut(t, ins, me)
     [] ins.op = "uld"      -> UnsyncLoad(t, ins, me)
-    [] ins.op = "rd"       -> Rd(t, ins, me)
-    [] ins.op = "wr"       -> Wr(t, ins, me)
+    [] ins.op = "rd"       -> IF ins.k = "panic" THEN RdPanic(t, ins, me) ELSE Rd(t, ins, me)
+    [] ins.op = "wr"       -> IF ins.k = "panic" THEN WrPanic(t, ins, me) ELSE Wr(t, ins, me)
     [] ins.op \in {"wrrd", "rdwr"} -> NestedCell(t, ins, me)
     [] ins.op = "spawn"    -> Spawn(t, ins, me)
     [] ins.op = "join"     -> Join(t, ins, me)
@@ -829,7 +841,7 @@ Do(t, ins, me) ==
     [] ins.op = "wakeref"  -> RawWake(t, ins, me, FALSE)
     [] ins.op = "br"       -> Br(t, ins, me)
     [] ins.op = "panic"    -> Panic(t, ins, me)
-    [] ins.op \in {"nop", "stopx", "explore", "skipb"} -> Nop(t, ins, me)
+    [] ins.op \in {"nop", "stopx", "explore", "skipb", "aguard"} -> Nop(t, ins, me)
 
 Live(t) == end = "run" /\ st[t] = "run" /\ pc[t] <= Len(Code(t))
 
